@@ -35,28 +35,28 @@ type specFn struct {
 }
 
 type Contract struct {
-	Key      string // e.g. schema.IntSchema.Serialize ; for interfaces schema.Type.Unserialize
-	Pkg      string
-	IsIface  bool
-	Params   []string // names bound positionally to receiver+params
-	Results  []string
-	Requires []*Expr
-	Scope    []*Expr // domain restriction of the functional clauses: assumed when they are checked; callers get scope ==> ensures
-	Ensures  []*Expr
-	Checks   []*Expr // postconditions that mention internal variables (witnesses): verified, not exported to callers
-	Names    []*Expr // definitional clauses: assumed at call sites, never checked (they name the verdict of a deterministic operation)
-	Assigns  []*Expr
+	Key        string // e.g. schema.IntSchema.Serialize ; for interfaces schema.Type.Unserialize
+	Pkg        string
+	IsIface    bool
+	Params     []string // names bound positionally to receiver+params
+	Results    []string
+	Requires   []*Expr
+	Scope      []*Expr // domain restriction of the functional clauses: assumed when they are checked; callers get scope ==> ensures
+	Ensures    []*Expr
+	Checks     []*Expr // postconditions that mention internal variables (witnesses): verified, not exported to callers
+	Names      []*Expr // definitional clauses: assumed at call sites, never checked (they name the verdict of a deterministic operation)
+	Assigns    []*Expr
 	HasAssigns bool
-	LoopInv  map[int][]*Expr
-	Decreases []*Expr
-	Arith    bool // arith checked
-	Pure     bool
-	File     string
-	Line     int
-	Counted  bool // every call increments ghost("calls:<Key>")
-	Trusted  bool // contract is assumed, body not verified (listed in evidence)
-	NoFrame  bool
-	Ghost    map[string]string
+	LoopInv    map[int][]*Expr
+	Decreases  []*Expr
+	Arith      bool // arith checked
+	Pure       bool
+	File       string
+	Line       int
+	Counted    bool // every call increments ghost("calls:<Key>")
+	Trusted    bool // contract is assumed, body not verified (listed in evidence)
+	NoFrame    bool
+	Ghost      map[string]string
 }
 
 type Lemma struct {
@@ -83,14 +83,14 @@ type Monitor struct {
 
 type ContractSet struct {
 	monitors []*Monitor
-	invs   map[string][]*TypeInv // type name (pkg.Name) -> invariants
-	nonnil map[string]bool        // "pkg::type text" -> elements of this type in pre-existing containers are non-nil
-	funcs  map[string]*Contract
-	ifaces map[string]*Contract
-	specs  map[string]*specFn
-	lemmas []*Lemma
-	axioms []*Lemma // facts that define abstract spec functions (assumed; listed in the evidence)
-	files  []string
+	invs     map[string][]*TypeInv // type name (pkg.Name) -> invariants
+	nonnil   map[string]bool       // "pkg::type text" -> elements of this type in pre-existing containers are non-nil
+	funcs    map[string]*Contract
+	ifaces   map[string]*Contract
+	specs    map[string]*specFn
+	lemmas   []*Lemma
+	axioms   []*Lemma // facts that define abstract spec functions (assumed; listed in the evidence)
+	files    []string
 }
 
 var clauseKeywords = map[string]bool{"func": true, "interface": true, "spec": true, "abstract": true, "requires": true, "ensures": true,
